@@ -162,7 +162,7 @@ Qed.
 Theorem step_J i o : J i -> elinv (i_st i) -> op_wf i o ->
   snd (step cap pol smp i o) = false -> J (snd (fst (step cap pol smp i o))).
 Proof.
-  intros HJ HI Hwf. destruct o as [e|e| |ep raw|id|f|a b]; cbn [step op_wf] in *.
+  intros HJ HI Hwf. destruct o as [e|e| |ep raw|id|f|a b|]; cbn [step op_wf] in *.
   - destruct (guard i e true) as [w|] eqn:G; cbn [fst snd]; [auto|].
     specialize (Hwf eq_refl).
     destruct (process cap (policy_fn pol) (aput (a_id e) e (i_es i)) (i_st i) e) as [[r bl] st'] eqn:E.
@@ -198,6 +198,7 @@ Proof.
   - destruct (mem a (i_proc i) && mem b (i_proc i)); cbn [fst snd]; [|auto].
     unfold fc_cached. destruct (cache_get (a, b) (l_fcc (i_st i))); cbn [fst snd]; intros _;
       (apply (J_fields (i_st i)); auto; destruct i; exact HJ).
+  - cbn [fst snd]. auto.
 Qed.
 
 End InvStep.
